@@ -120,6 +120,16 @@ def c16_cases(tier, rng):
                 c.peer.append(OK); c.call("close"); c.call("close", "0"); c.call("close", "1"); c.call("close")
                 c.reply(OK); c.call("noop")
                 cases.append(c.case())
+    # the verdict never arrives (the peer goes away, or sends half a reply and goes away): the first Close fails with an I/O
+    # error; Close again must still be an error that writes nothing — the message has been sent once, there is no second exchange
+    for body in (b"one\r\n", b"", b"x", b"a\r\n.\r\nb", b"tail without newline"):
+        for lost in (["EOF"], [b"25", "EOF"], [b"250-2.0.0 first line\r\n", "EOF"]):
+            for lm in (False, True):
+                c = CC(lmtp=lm); c.mail(b"s@x"); c.rcpt(b"r@x")
+                c.peer.append(b"354 go ahead\r\n"); c.call("lmtpdata" if lm and body else "data"); c.call("write", hx(body))
+                c.peer.extend(lost)
+                c.call("close"); c.call("close"); c.call("close")
+                cases.append(c.case())
     for _ in range(300 if tier == "quick" else 3000):
         n = rng.randrange(0, 9000)
         body = bytes(rng.choice(b"ab.\n") if rng.random() < 0.3 else rng.randrange(32, 256) for _ in range(n)).replace(b"\r", b"x")
